@@ -149,6 +149,21 @@ def session_messages(chk):
     msgs = []
     echo_viol = []
     chk._echo_viol = echo_viol
+    # corpus first: recorded server sessions (cfg + ops) on which a datagram the server emitted was once malformed
+    import glob, os
+    for f in sorted(glob.glob(os.path.join(vlib.VERIF, "corpus", "C10", "*.srv.ops"))):
+        cops = [l.strip() for l in open(f) if l.strip() and not l.startswith("#")]
+        hh = srvgen.Harness(srv)
+        for o in cops:
+            st = hh.send(o)
+            if st is None:
+                break
+            for e in st.events:
+                if e[0] in ("tx", "nsa", "fwd"):
+                    msgs.append((vlib.unhx(e[2]), cops, None))
+        hh.close()
+        if hh.dead:
+            chk.violation("the server harness aborted on corpus file %s: %s" % (os.path.basename(f), hh.dead[2][-600:]), cops, key="c10:corpus-abort")
     for k in range(32 if thorough else 12):
         g = srvgen.Gen(random.Random(chk.seed * 104729 + k), srv, bind=5353)
         h = g.run(400)
